@@ -19,8 +19,14 @@ TRUSTED = [
     "fragment: int/bool values, + - *, bitwise & | ^, // and %, abs(e), min/max over int-typed operands (n-ary calls = left fold), unary minus, comparisons, "
     "and/or/not over bools, conditional expressions, assignment, augmented assignment (every operator), tuple assignment to already declared names of "
     "the right-hand sides' types (W5), if/elif/else, while, for-range, break, serial write "
-    "of ints, sleep; names first assigned at top level or (tr2) one block below it; helper functions, lists, strings, floats, / ** << >> and `continue` are "
+    "of ints and strings, sleep; names first assigned at top level or (tr2) one block below it; helper functions, lists, floats, / ** << >> and `continue` are "
     "outside the theorem and exercised only by the end-to-end oracle",
+    "text (W13): string literals of printable ASCII, string-typed names (declaration, assignment, tuple assignment, promotion), conditional expressions over "
+    "strings, str(e) of int-/string-typed e (emitted String(e)), + on two strings (literal left operand emitted as String(\"...\"); s += e), f-strings (the generator prints f\"..\" and sends the model the left fold "
+    "of + over the parts that `_to_c_expr` emits for a JoinedStr — a formatted value is String(e), a plain f-string a literal; T ties that reading to the emitted text, "
+    "S_py to CPython's formatting), serial lines compared as TEXT (the model prints an int with Lean's `toString`, the mock core with std::to_string, CPython with str); the model's "
+    "`String` is a list of characters with `+` = append (tied to the mock core's String by S_c); strings in conditions / counts / arithmetic / comparisons are "
+    "outside `InF`; a bool reaching `mon.write` is a `typeError` of the model's Python side (K01f), so no theorem speaks about such a run",
     "`//` and `%`: the theorem is about the STRICT reading of the C semantics, which stops with `signedDiv` at a `/` or `%` with a negative dividend or divisor "
     "(there C and Python may differ: K01b, K01c); runs that stop there are not compared in the strict S_c tie, but the RAW reading (C's truncating operators) is "
     "tied to g++ on every run, and a CPython-vs-firmware difference in such a run is reported under core:floor-division-negative / core:modulo-negative; "
@@ -371,13 +377,13 @@ def run(ctx: Ctx) -> int:
     rng = ctx.rng
     progs = []
     for _ in range(ctx.n(120, 2500)):
-        g = langgen.G(rng, max_depth=rng.choice([1, 2, 3]))
+        g = langgen.G(rng, max_depth=rng.choice([1, 2, 3]), strings=True)
         progs.append(g.program())
     # programs whose top-level branches / loops introduce names (promotion; model side = tr2)
     n_plain = len(progs) + 1
-    promo = [langgen.G(rng, max_depth=rng.choice([2, 3]), promote=True).program() for _ in range(ctx.n(60, 1200))]
+    promo = [langgen.G(rng, max_depth=rng.choice([2, 3]), promote=True, strings=True).program() for _ in range(ctx.n(60, 1200))]
     # conditions written as chained comparisons (`a < b <= c`): the model is given the conjunction they abbreviate, so T is skipped for them
-    progs += [langgen.G(rng, max_depth=rng.choice([2, 3]), chains=True).program() for _ in range(ctx.n(50, 600))]
+    progs += [langgen.G(rng, max_depth=rng.choice([2, 3]), chains=True, strings=True).program() for _ in range(ctx.n(50, 600))]
     progs += FIXED_TUPLES
     n_plain = len(progs) + 1
     # every top-level `break` directly in the main loop must be rejected (through if nesting too)
@@ -404,8 +410,14 @@ def run(ctx: Ctx) -> int:
         if "(tup " in sx:
             ctx.count("programs-using:tuple-assignment")
             ctx.count("tuple-assignments", sx.count("(tup "))
-        if t2 and t.startswith("ok") and not t.endswith(" in"):
-            ctx.tie_diff("generator invariant (promotion programs are in InF2)", {"script": src}, t[-4:], "")
+        if t.startswith("ok") and not t.endswith(" in"):
+            ctx.tie_diff("generator invariant (generated programs are in InF / promotion programs in InF2)", {"script": src}, t[-4:], "")
+        if "(s x" in sx:
+            ctx.count("programs-using:strings")
+            ctx.count("string-literals", sx.count("(s x"))
+            ctx.count("str()-calls", sx.count("(str "))
+            ctx.count("f-strings", src.count('f"'))
+            ctx.count("string-concatenations-with-literal-left", sx.count("(bin add (s x"))
         replay = {"script": src, "passes": n}
         # ---- T
         if t.startswith("reject"):
@@ -421,7 +433,7 @@ def run(ctx: Ctx) -> int:
         if cpp is None:
             ctx.tie_diff("tie T (transpiler rejects a fragment program)", replay, "accepted", repr(exc))
             continue
-        model_lines = bytes.fromhex(t.split(" ")[1][1:]).decode().split("\n")
+        model_lines = [" ".join(l.split()) for l in bytes.fromhex(t.split(" ")[1][1:]).decode().split("\n")]
         real_lines = norm(cpp)
         ctx.cov["traces_validated_against_impl"] += 1
         ctx.case(sx, nontrivial=("while" in sx or "for" in sx or "if" in sx), sample={"script": src, "model_c": model_lines[:12]} if len(ctx.cov["samples"]) < 2 else None)
@@ -515,7 +527,9 @@ def run(ctx: Ctx) -> int:
     range_tie(ctx)
     ctx.cov["rule"] = ("type-directed random programs of the core fragment (depth <= 3, bounded while loops, for-range, break, nested if/elif/else, int and bool "
                        "names all first assigned at top level; expressions over + - * & | ^ // % abs min max, divisors mostly positive; tuple assignments (swaps, rotations, "
-                       "Fibonacci-style updates, mixed int/bool targets) in prologue, nested blocks and main loop, plus pinned counter-threading programs), N in {0,1,3} passes; "
+                       "Fibonacci-style updates, mixed int/bool targets) in prologue, nested blocks and main loop, plus pinned counter-threading programs); W13: a post-pass with its own PRNG "
+                       "declares string names s, t (u in a promoted branch) and adds serial writes / assignments / swaps of string literals (printable ASCII incl. quote, backslash, braces), names and "
+                       "conditional expressions, str(<int expression, also over the loop variable in scope>), str(<string>), concatenations (never two `const char*` operands), f-strings (literal text and int-/string-typed formatted values) and `s += e` to every block; N in {0,1,3} passes; "
                        "each program goes through T, S_py, S_c (strict and raw reading) and E; plus fixed scripts for "
                        "break-in-main-loop, swaps/tuples, helpers, lists, f-strings (E only) and one-construct-outside scripts; non-trivial = has control flow")
     return ctx.finish(TRUSTED, search=None)
